@@ -42,6 +42,16 @@ PROP = {  # subject keyword -> (property, failing input)
  'a stretched array line keeps its newline': ('C29', "template ['a 1 2\\n','b 3\\n'], transfer_array([1,2.5,3,4.0],0,2,3) -> 'a 1 2.5 3 4.0b 3\\n'"),
  'forward-mode jax tangents of a single-input function': ('C34', "ExplicitFuncComp, declare_partials(method='jax'), one input of size 1: TypeError in jax.jvp"),
  'linear nearest-neighbor interpolation with collinear neighbors': ('C28', "NearestNeighbor(interpolant_type='linear') at a training input with collinear neighbours returned 4.4068 instead of 4.0; linearize ValueError for 1 input x 2 outputs"),
+ 'full transfers move discrete variables in serial runs': ('C04', 'discrete source incremented every iteration under NonlinearBlockJac: the downstream discrete input stayed 0 on all 5 iterations'),
+ 'src_indices are shaped against the current source on every setup': ('C04', 'connect(src_indices=[-1,-2]); setup; resize the source from 4 to 6; setup again: input reads [13,12] instead of [15,14]'),
+ 'a value set before final_setup survives the second resolution pass': ('C07', 'set_input_defaults + shape_by_conn sibling: set_val before final_setup overwritten by the defaults value at final_setup'),
+ 'set_val with units on an input connected to a unitless source': ('C07', "set_val(input with units 'cm' connected to a unitless IndepVarComp output) raised \"Can't express value with units of 'None'\" at final_setup"),
+ 'subgroups forget their cached system graph on setup': ('C32', 'subgroup with auto_order=True: setup, add sub.connect(...), setup again: order stays C2, C1 and C2.y = 3 instead of 12'),
+ 'approximated groups rebuild their approximations when the relevance changes': ('C24', 'approx_totals group fed by desvars x and y: compute_totals(of=f, wrt=x) then (of=f, wrt=y) on one Problem gives df/dy = 0 instead of 60 (correct with relevance off)'),
+ 'approximated groups copy linear vectors in physical units': ('C08', 'approx_totals group with a ref0-only output under LinearRunOnce: dh/dx = 108 (fwd) / 12 (rev) instead of 36'),
+ 'ExecComp partials leave the outputs untouched under force_alloc_complex': ('C31', 'setup(force_alloc_complex=True); run_model; set_val(c1.x); compute_totals: ExecComp output c1.y changes from [1.3325, 0.2125] to [0.4325, 0.7325]'),
+ 'a seeded sampling UniformGenerator draws from its own random stream': ('C23', 'two sampling.UniformGenerator objects with the same seed built before either is consumed (or np.random used in between) yield different cases'),
+ 'the file parser reads negative one-digit exponent floats': ('C29', "transfer_var(-2e-05) is written as '-2e-05' and read back as int -2 followed by the word 'e-05'"),
  'check_partials works on private copies': ('C13', "check_partials(method='fd', step=[0.5, 0.25]) on a dense partial: J_fd[0] is J_fd[1] (last step's values); constant val= partials overwritten by the approximation (second check reports zero error, compute_totals returns 2 instead of 5)"),
  'InterpND.gradient returns the derivative at the point': ('C16', 'akima 2-D table: interpolate(x); gradient(x) returns np.empty garbage for sub-dimensions ([[-2.127, 0.]] instead of [[-2.127, -2.983]]); gradient(x) after an in-place change of x returns the old gradient'),
  'check_partials reports every approximated nonzero': ('C13', 'diagonal-declared 4x4 with 8 off-diagonal nonzeros: rows/cols, coo, csc reported 2, csr none, diagonal=True raised KeyError'),
